@@ -94,7 +94,7 @@ struct Gen {
     if (mx > 16) mx = 16;
     return (int)r.range(1, mx);
   }
-  int new_input_zv(int mod, uint64_t size, int bits, int force_pattern = -1) {
+  int new_input_zv(int mod, uint64_t size, int bits, int force_pattern = -1, bool sparse_if_big = false) {
     Slot s;
     s.type = T_ZV;
     s.mod = mod;
@@ -105,7 +105,8 @@ struct Gen {
     s.pattern = force_pattern >= 0 ? force_pattern : pick_pattern();
     s.bits = bits;
     s.nnz = 1 + (int)r.below(8);
-    if (s.n >= 2048 && s.pattern != PAT_ZERO && s.pattern != PAT_SINGLE) s.pattern = PAT_SPARSE;  // keeps the model's products cheap
+    // one operand of every product is sparse at large N: keeps the model's O(nnz*nnz) products cheap
+    if (sparse_if_big && s.n >= 2048 && s.pattern != PAT_ZERO && s.pattern != PAT_SINGLE) s.pattern = PAT_SPARSE;
     int id = add_slot(s);
     M.load_input(id);
     return id;
@@ -458,7 +459,7 @@ struct Gen {
         break;
       }
       case OP_SVP_PREPARE: {
-        int a = new_input_zv(mod, 1, small_bits(n));
+        int a = new_input_zv(mod, 1, small_bits(n), -1, true);
         set(0, new_out(T_PPOL, mod, 1), 1);
         set(1, a, 1);
         break;
@@ -512,7 +513,7 @@ struct Gen {
         break;
       }
       case OP_SMALL_PRODUCT: {
-        int a = new_input_zv(mod, 1, small_bits(n)), b = new_input_zv(mod, 1, small_bits(n));
+        int a = new_input_zv(mod, 1, small_bits(n), -1, true), b = new_input_zv(mod, 1, small_bits(n));
         // operands are copied into scratch before the output is written: res may be one of them (acc <- s*acc chains)
         uint64_t al = r.below(100);
         set(0, al < 12 ? a : al < 24 ? b : new_out(T_ZV, mod, 1), 1);
